@@ -1,0 +1,34 @@
+//go:build verif
+
+package harfbuzz
+
+import "github.com/go-text/typesetting/language"
+
+// Hooks for the verification harness (property C18, the cut-and-reshape sweep go/cmd/c18sweep).
+// Nothing here changes behaviour; the file is only compiled with -tags verif.
+
+// VerifHorizontalDirection is getHorizontalDirection: the native horizontal direction of a script
+// (0 when the script has none).
+func VerifHorizontalDirection(s language.Script) Direction { return getHorizontalDirection(s) }
+
+// VerifContinuations tells, for every rune of the text, whether the shaper treats it as the
+// continuation of the grapheme of the previous rune (setUnicodeProps). reverseGraphemes keeps
+// such runs in logical order when it reverses a buffer.
+func VerifContinuations(text []rune) []bool {
+	b := NewBuffer()
+	b.AddRunes(text, 0, len(text))
+	b.setUnicodeProps()
+	out := make([]bool, len(b.Info))
+	for i := range b.Info {
+		out[i] = i != 0 && b.Info[i].isContinuation()
+	}
+	return out
+}
+
+// VerifSetContexts replaces the pre- and post-context of the buffer (each nearest rune first).
+// The sweep uses it to recognise failures that are only due to the context being kept in logical
+// order while the buffer is shaped reversed (direction opposite to the native one of the script).
+func (b *Buffer) VerifSetContexts(pre, post []rune) {
+	b.context[0] = append([]rune(nil), pre...)
+	b.context[1] = append([]rune(nil), post...)
+}
